@@ -312,6 +312,11 @@ def check(ctx):
     ctx.check(len(look) == 1 and norm(look[0].slice) == "data[self.alias]", "C13.R6", dmf.qualname + ":lookup", look[0] if look else dmf.node.body[0], "the member is not selected by `self.mapping[data[self.alias]]`", dmf, dmf.node, detail="self.mapping[data[self.alias]]")
 
 
+    # ---------------- R7: name / alias domains in the discriminator helpers
+    ctx.rule("C13.R7", "a discriminator is an external property name: discriminator helpers look fields up by alias; containers keyed by Python names are never looked up with it", floor=1)
+    from .common_domains import name_alias_domains_rule
+    name_alias_domains_rule(ctx, "C13.R7", ("apischema.discriminators",))
+
 def mutants(mb):
     mb.add_text("discriminate-plain-alternative", "apischema/serialization/__init__.py", "                    DiscriminatedAlternative(\n                        expected_class(tp),\n                        self.visit(tp),\n                        self.aliaser(discriminator.alias),\n                        key,\n                    )\n", "                    UnionAlternative(expected_class(tp), self.visit(tp))\n", "C13.R4", "discriminate")
     mb.add_text("conversion-factory-keyed", "apischema/deserialization/__init__.py", "        return self._factory(factory, validation=not dynamic)\n", "        return dataclasses.replace(self._factory(factory, validation=not dynamic), cls=conv_factories[0].cls)\n", "C13.R1", "replace(cls=)")
